@@ -153,11 +153,16 @@ func runC13(e *Engine, r *Report, tier string) {
 		// deleted key roots at the stored record (read from 0x12)
 		okOld := false
 		for _, a := range nonCtxArgs(edit.del14[0]) {
-			res := e.Slice(a, SliceOpts{MaxDepth: 8, ThroughCalls: true, At: edit.del14[0]}, func(x ssa.Value) Verdict {
+			res := e.Slice(a, SliceOpts{MaxDepth: 10, ThroughCalls: true, At: edit.del14[0], IntoCallers: true}, func(x ssa.Value) Verdict {
 				if _, ok := e.valueReadsFamily(x, cc, "12"); ok {
 					return Accept
 				}
 				if p, ok := x.(*ssa.Parameter); ok && paramIndex(p) > 0 {
+					// a record handed in by the callers (re-keying extracted into a helper): followed into the callers;
+					// a parameter of a function without callers, or a message field, stays a reject
+					if len(e.CallSites(p.Parent())) > 0 && strings.Contains(p.Type().String(), "Oracle") {
+						return Continue
+					}
 					return Reject
 				}
 				return Continue
@@ -167,7 +172,22 @@ func runC13(e *Engine, r *Report, tier string) {
 			}
 		}
 		r.Check(okOld, "R1", k+" old-key", e.InstrPos(edit.del14[0]), "deletes the index key of the stored record's bridger", "the bridger index entry removed is not the stored record's own bridger (the old bridger would stay mapped)")
-		r.Check(e.absenceGuard(edit.set14[0], "14", false), "R1", k+" absent(0x14)", e.InstrPos(edit.set14[0]), "new bridger must be unused", "the new bridger address is not checked for being bound to another oracle")
+		okAbs := e.absenceGuard(edit.set14[0], "14", false)
+		if !okAbs {
+			// the test may sit in the callers of a re-keying helper: then every call site must be guarded
+			sites := e.CallSites(edit.fn)
+			all := len(sites) > 0
+			for _, cs := range sites {
+				if isAuxPkg(fnPkgPath(cs.Caller)) {
+					continue
+				}
+				if !e.absenceGuard(cs.Call, "14", false) {
+					all = false
+				}
+			}
+			okAbs = all
+		}
+		r.Check(okAbs, "R1", k+" absent(0x14)", e.InstrPos(edit.set14[0]), "new bridger must be unused", "the new bridger address is not checked for being bound to another oracle")
 		r.Check(len(edit.set12) > 0, "R1", k+" record", e.Pos(edit.fn.Pos()), "record rewritten with the new bridger", "the oracle record is not updated with the new bridger")
 		// delete before set
 		r.Check(Dominates(edit.del14[0], edit.set14[0]), "R1", k+" order", e.InstrPos(edit.set14[0]), "old index deleted before the new one is set", "new bridger index is written on a path that does not delete the old one")
